@@ -103,6 +103,7 @@ type fake struct {
 	hookTags  []string
 	sctx      context.Context // context the pool hands to HandleMessage for this stream
 	gotId     uint32
+	ended     string // why the harness knows the stream has ended ("" = it has not)
 }
 
 type arrival struct {
@@ -170,6 +171,7 @@ func (f *fake) MsgSend(m drpc.Message, _ drpc.Encoding) error {
 		return errFakeClosed
 	}
 	if f.failAt != 0 && k == f.failAt {
+		f.ended = "MsgSend returned an error"
 		return errFakeWrite
 	}
 	f.delivered = append(f.delivered, id)
@@ -189,6 +191,9 @@ func (f *fake) MsgRecv(m drpc.Message, _ drpc.Encoding) error {
 		*(m.(*inMsg)) = it
 		return nil
 	case <-f.eof:
+		f.w.mu.Lock()
+		f.ended = "MsgRecv returned EOF"
+		f.w.mu.Unlock()
 		return io.EOF
 	case <-f.closedCh:
 		return errFakeClosed
@@ -305,6 +310,9 @@ func (h *handler) NewReadMessage() drpc.Message {
 func (h *handler) HandleMessage(ctx context.Context, peerId string, m drpc.Message) error {
 	im := m.(*inMsg)
 	if im.kind == 1 {
+		h.w.mu.Lock()
+		im.f.ended = "HandleMessage returned an error"
+		h.w.mu.Unlock()
 		return errHandler
 	}
 	w := h.w
